@@ -256,9 +256,20 @@ def storeIndexAxis (region : Option PySlice) (p : Int × Int) : Except Err PySli
   | none => .ok (chunkSlice p)
   | some r => fuseSliceSlice r (chunkSlice p)
 
+/-- `mapM` in the exception monad, written out (first error wins) -/
+def mapE {α β} (f : α → Except Err β) : List α → Except Err (List β)
+  | [] => .ok []
+  | x :: xs =>
+    match f x with
+    | .error e => .error e
+    | .ok y =>
+      match mapE f xs with
+      | .error e => .error e
+      | .ok ys => .ok (y :: ys)
+
 /-- all write slices of an axis, block order -/
 def storeWrites (region : Option PySlice) (chunks : List Int) : Except Err (List PySlice) :=
-  (slicesFromChunks chunks).mapM (storeIndexAxis region)
+  mapE (storeIndexAxis region) (slicesFromChunks chunks)
 
 /-- `fuse_slice(a, b)` for tuples: `a` = region (slices / integers), `b` = chunk slices
 (no `None`, no lists).  Mirrors the `j` walk. -/
@@ -286,5 +297,42 @@ def storeIndex (region : Option (List RIdx)) (index : List (Int × Int)) : Excep
 /-- `to_npy_stack` chunks: every axis but `axis` collapsed to one chunk -/
 def npyStackChunks (chunks : List (List Int)) (axis : Int) : List (List Int) :=
   (chunks.zipIdx).map (fun ci => if (ci.2 : Int) = axis then ci.1 else [isum ci.1])
+
+/-! ## spec vocabulary (what NumPy does), used by the theorems -/
+
+/-- `[xs[i] for i in is]` for in-range non-negative positions -/
+def pick (xs : List Int) (is : List Int) : List Int := is.filterMap (fun i => xs[i.toNat]?)
+
+/-- NumPy meaning of one basic index entry on an axis whose current content is `xs`
+(an integer keeps the axis with length one here; `_accept_slice` wraps the new node in an
+extracting `[0]`, which drops it). -/
+def npIndex (xs : List Int) : Idx → List Int
+  | .slc s => pick xs (sel s (xs.length : Int))
+  | .int i => (xs[i.toNat]?).toList
+  | _ => xs
+
+/-- NumPy meaning of a chain of index entries applied one after the other -/
+def npChain (xs : List Int) : List Idx → List Int
+  | [] => xs
+  | i :: rest => npChain (npIndex xs i) rest
+
+/-- integers are in range where they are applied (what `normalize_index` guarantees) -/
+def IdxValid (xs : List Int) : Idx → Prop
+  | .int k => 0 ≤ k ∧ k < (xs.length : Int)
+  | _ => True
+
+def ValidChain (xs : List Int) : List Idx → Prop
+  | [] => True
+  | i :: rest => IdxValid xs i ∧ ValidChain (npIndex xs i) rest
+
+/-- overlap length of every chunk `[a, b)` that meets `[start, stop)` -/
+def overlapSpec (start stop : Int) (blocks : List (Int × Int)) : List Int :=
+  blocks.filterMap (fun p => if p.2 ≤ start ∨ p.1 ≥ stop then none else some (min p.2 stop - max p.1 start))
+
+/-- what NumPy selects for the region of an axis -/
+def regionPositions (ax : Axis) : List Int :=
+  match ax.region with
+  | none => rangeList 0 ax.dim 1
+  | some r => sel r ax.dim
 
 end Dask.SourceIO
